@@ -196,6 +196,12 @@ func run(c *core.Ctx) int {
 		}
 		_ = ci
 	}
+	// "who executes the grow": several instances with their own memories
+	nMulti := c.N(4000, 60000)
+	mrng := core.NewRng(c.Seed, 1414)
+	for k := 0; k < nMulti; k++ {
+		normal.addPair(Case{Multi: genMulti(mrng), Seed: mrng.U64(), Class: "multi"})
+	}
 	// fixed heavy histories that must always be present, then a PRNG sample of the candidates
 	for _, kind := range []string{"local", "imported", "shared"} {
 		for _, h := range []struct {
@@ -258,7 +264,10 @@ func run(c *core.Ctx) int {
 			"markers_checked", "new_pages_checked", "windows_checked", "definition_checks", "obs_guest_size", "obs_host_grow0",
 			"probe_size_inb", "probe_size_oob", "probe_2^32_inb", "probe_2^32_oob", "probe_bound_oob", "probe_page_inb", "probe_extreme_inb", "probe_extreme_oob",
 			"guest_load8_inb", "guest_load8_oob", "guest_store64_inb", "guest_store64_oob",
-			"alloc_default", "alloc_guard", "alloc_moving", "kind_local", "kind_imported", "kind_shared", "class_heavy", "class_exhaustive", "class_prng"} {
+			"alloc_default", "alloc_guard", "alloc_moving", "kind_local", "kind_imported", "kind_shared", "class_heavy", "class_exhaustive", "class_prng",
+			"class_multi", "multi_route_direct", "multi_route_via", "multi_route_nested", "multi_route_indirect", "multi_route_hostself", "multi_route_hostother",
+			"multi_op_grow", "multi_op_size", "multi_op_load8", "multi_op_store8", "multi_grow_ok", "multi_grow_fail", "multi_cross_instance_steps",
+			"multi_entry_has_other_memory", "multi_entry_without_memory", "multi_obs_size", "multi_obs_bytes", "multi_instances_2", "multi_instances_3"} {
 			if c.Counter(e+"/"+k) == 0 {
 				missing = append(missing, e+"/"+k)
 			}
@@ -279,7 +288,8 @@ func run(c *core.Ctx) int {
 	c.Assume("MemoryDefinition.Max() may report the declared or the limit-clamped maximum; its value is unconstrained when no maximum is encoded")
 	c.Assume("on a failed Grow the returned page count is unspecified; a failed read's value is unspecified")
 	c.Assume("moving allocator is not combined with shared memories (allocator contract)")
-	rule := "one evaluation = one history (configuration x grow-step sequence, <=8 steps) run on one engine and decided step by step against the reference model; pairs (interpreter, compiler) also compared by observation digest; non-trivial = module accepted and >=1 grow step executed; distinct = distinct (configuration, resolved step sequence with results)"
+	c.Assume("multi-instance histories: limit pages and capacity-from-max are runtime-wide in wazero, so they are shared by the instances of one topology; min, max and allocator differ per instance")
+	rule := "one evaluation = one history (configuration x grow-step sequence, <=8 steps; or multi-instance topology x 4-11 routed steps) run on one engine and decided step by step against the reference model; pairs (interpreter, compiler) also compared by observation digest; non-trivial = module accepted and >=1 grow step executed; distinct = distinct (configuration, resolved step sequence with results)"
 	code := c.Finish(st.evals, int64(len(st.digests)), rule)
 	if len(missing) > 0 {
 		sort.Strings(missing)
@@ -355,26 +365,34 @@ func (a *agg) handle(p *pending, rs []core.CaseResult, base int, isHeavy bool) {
 			}
 			c.Count(e+k, int64(n))
 		}
-		c.Count(e+"alloc_"+cs.Cfg.Alloc, 1)
-		c.Count(e+"kind_"+cs.Cfg.Kind, 1)
+		if cs.Multi == nil {
+			c.Count(e+"alloc_"+cs.Cfg.Alloc, 1)
+			c.Count(e+"kind_"+cs.Cfg.Kind, 1)
+		} else {
+			c.Count(fmt.Sprintf("%smulti_instances_%d", e, len(cs.Multi.Insts)), 1)
+		}
 		c.Count(e+"class_"+cs.Class, 1)
-		c.Count(fmt.Sprintf("%shistory_len_%d", e, len(cs.Steps)), 1)
+		c.Count(fmt.Sprintf("%shistory_len_%d", e, cs.nSteps()), 1)
 		if out.HWMKB > a.maxHWM[isHeavy] {
 			a.maxHWM[isHeavy] = out.HWMKB
 		}
-		if !out.Rejected && len(cs.Steps) > 0 && out.Summary != "" {
+		if !out.Rejected && cs.nSteps() > 0 && out.Summary != "" {
 			h := fnv.New64a()
-			h.Write([]byte(cs.Cfg.String() + "|" + out.Summary))
+			h.Write([]byte(cs.cfgKey() + "|" + out.Summary))
 			a.digests[string(h.Sum(nil))] = true
-			c.Distinct("configs_run", cs.Cfg.String())
+			if cs.Multi == nil {
+				c.Distinct("configs_run", cs.cfgKey())
+			} else {
+				c.Distinct("multi_topologies_run", cs.cfgKey())
+			}
 		}
 		if (base+i)%1499 == 0 || (isHeavy && i%7 == 0) {
-			c.Sample(map[string]any{"config": cs.Cfg.String(), "engine": cs.Engine, "class": cs.Class, "steps": out.Summary,
+			c.Sample(map[string]any{"config": cs.cfgKey(), "engine": cs.Engine, "class": cs.Class, "steps": out.Summary,
 				"final_pages": out.FinalPages, "rejected": out.Rejected, "child_hwm_kb": out.HWMKB})
 		}
 		for _, f := range out.Findings {
 			// keep, per signature, the witness that needs the fewest steps (and is not a 4 GiB Go-heap case)
-			rank := (f.Step+1)*1000 + len(cs.Steps)*10
+			rank := (f.Step+1)*1000 + cs.nSteps()*10
 			if isHeavy {
 				rank += 500
 			}
@@ -385,10 +403,7 @@ func (a *agg) handle(p *pending, rs []core.CaseResult, base int, isHeavy bool) {
 			}
 			b.count++
 			if rank < b.rank {
-				wcs := cs
-				if f.Step+1 < len(wcs.Steps) {
-					wcs.Steps = wcs.Steps[:f.Step+1] // later steps are irrelevant for this finding
-				}
+				wcs := cs.truncated(f.Step)
 				b.rank, b.detail = rank, f.Detail
 				b.witness = map[string]any{"case": wcs, "finding": f, "log": out.Log, "summary": out.Summary}
 			}
@@ -413,7 +428,11 @@ func (a *agg) handle(p *pending, rs []core.CaseResult, base int, isHeavy bool) {
 					break
 				}
 			}
-			c.Violate("engines-disagree:observations:"+p.meta[i].Cfg.Kind, fmt.Sprintf("interpreter and compiler observations differ from step %d on (config %s)", step, p.meta[i].Cfg),
+			kind := p.meta[i].Cfg.Kind
+			if p.meta[i].Multi != nil {
+				kind = "multi-instance"
+			}
+			c.Violate("engines-disagree:observations:"+kind, fmt.Sprintf("interpreter and compiler observations differ from step %d on (config %s)", step, p.meta[i].cfgKey()),
 				map[string]any{"case": p.meta[i], "first_differing_step": step, "interpreter": x, "compiler": y})
 		}
 	}
@@ -440,7 +459,12 @@ func replay(c *core.Ctx, path string) int {
 	for _, e := range []string{"interpreter", "compiler"} {
 		cs := w.Witness.Case
 		cs.Engine = e
-		res := runCase(cs, true)
+		var res *Result
+		if cs.Multi != nil {
+			res = runMulti(cs, true)
+		} else {
+			res = runCase(cs, true)
+		}
 		fmt.Printf("== %s: digest %s, %d findings\n", e, res.Digest, len(res.Findings))
 		for _, l := range res.Log {
 			if !strings.HasPrefix(l, "    obs") {
